@@ -205,12 +205,14 @@ impl<'t, D: Distance> ImmutableLeafs<'t, D> {
     /// and keeping the transaction making the pointers valid.
     /// Do not take more items than memory allows.
     /// Remove from the list of candidates all the items that were selected and return them.
+    /// At least `min_items` (and never less than 200) items are selected if there are enough candidates.
     pub fn new(
         rtxn: &'t RoTxn,
         database: Database<D>,
         index: u16,
         candidates: &mut RoaringBitmap,
         memory: usize,
+        min_items: usize,
     ) -> heed::Result<(Self, RoaringBitmap)> {
         let page_size = page_size::get();
         let nb_page_allowed = (memory as f64 / page_size as f64).floor() as usize;
@@ -241,7 +243,7 @@ impl<'t, D: Distance> ImmutableLeafs<'t, D> {
                 pages_used.insert(end);
             }
 
-            if pages_used.len() >= nb_page_allowed && leafs.len() >= 200 {
+            if pages_used.len() >= nb_page_allowed && leafs.len() >= min_items.max(200) {
                 break;
             }
 
